@@ -44,7 +44,20 @@ RULE = ('histories of attach/detach/receive/settle/reply/disconnect events over 
         '0.07 per step and 15 % of the replies on a face that is down for that call.  The recording face transmits only '
         'while it is up (like a socket), so `sent` is what actually went out; demanded by the specification machine '
         '(s_reply_out): the Data goes out iff t <= deadline and the face is up, and the callback reports "sent" (True) '
-        'exactly then -- False or NetworkError otherwise (classes reply-*-face-down).  A separate '
+        'exactly then -- False or NetworkError otherwise (classes reply-*-face-down).  Reply sizes x envelope of the Interest '
+        '(appv2, the only front-end whose handlers get a reply callback): the Data handed to reply() is a DigestSha256-signed '
+        'packet of exactly n octets for n = the smallest signed Data (48), 50, 100, 200, every size 228..254 and 257..260 (the one-octet / '
+        'three-octet TLV length switch of the Data and of an LpPacket around it; no TLV is 255 or 256 octets long), 300, 1000, '
+        '4000, 8000, 8500, 8700 and every size 8750..8800 (thorough: 8681..8800; 8800 = the packet size limit, so every legal '
+        'Data) x the Interest arriving bare / inside an LpPacket with a PIT token of 0, 1, 4, 8, 32 octets / an LpPacket without '
+        'a token / with a CongestionMark (with and without a token) x lifetime {absent, 0, 100, 4000} x replies inside the '
+        'lifetime, at the deadline, after it, handed over as bytes and as bytearray x the face up, down (three ways) and back '
+        'up, down for one call; several Interests in different envelopes outstanding at once and answered in any order with '
+        'Data of different sizes with down/up events in between; random histories draw the envelope (p = 0.3) and a size '
+        '(p = 0.5, half of them within 60 octets of the limit).  Size and envelope are no business of the specification '
+        'machine: the Data goes out iff t <= deadline and the face is up and reply() returns True exactly then (a reply that '
+        'was due, did not go out and is reported as sent is class reply-return-not-truthful); the byte check demands that what '
+        'went out is exactly that Data, bare when no PIT token came with the Interest, else inside an LpPacket echoing it.  A separate '
         'stream adds None handlers (correspondence only).  Registration API of the legacy front-end (real app.NDNApp connected '
         'through its own main_loop() to a scripted forwarder face): world histories of route() declared before connecting / on the '
         'live connection, register(name, handler) and register(name, None), unregister (of attached, free and announced-only '
@@ -154,6 +167,70 @@ def err_code(e):
 
 WIRES = {}     # (name, lifetime) -> Interest wire built by ndn.encoding.make_interest
 
+# ---- the Data handed to reply(): every legal size; the envelope the Interest arrived in ---------------
+MAX_PKT = 8800          # NDN packet size limit: a Data packet of up to 8800 octets is a legal reply
+_DATA = {}
+
+
+def data_of_size(n):
+    """A DigestSha256-signed Data packet (ndn.encoding.make_data) whose wire is exactly n octets, None when there
+    is none (no TLV is 255 or 256 octets long; below the smallest signed Data).  The content is a counting
+    pattern, so a truncated / shifted copy on the face is not the Data."""
+    if n in _DATA:
+        return _DATA[n]
+    from ndn.encoding import make_data, MetaInfo
+    from ndn.security import DigestSha256Signer
+
+    def build(name, content):
+        return bytes(make_data(name, MetaInfo(), content, signer=DigestSha256Signer()))
+    out = None
+    variants = [[]] + [[b'\x08\x01a', b'\x08\x01b'] + ([bytes([8, q]) + b'p' * q] if q else []) for q in range(6)]
+    for name in variants:
+        for content in (None, b''):
+            w = build(name, content)
+            if len(w) == n:
+                out = w
+        base = len(build(name, b''))
+        if out is not None or base > n:
+            continue
+        for k in range(max(1, n - base - 8), n - base + 1):
+            w = build(name, bytes((7 * i + 3) & 0xff for i in range(k)))
+            if len(w) == n:
+                out = w
+                break
+        if out is not None:
+            break
+    _DATA[n] = out
+    return out
+
+
+def min_data_size():
+    from ndn.encoding import make_data, MetaInfo
+    from ndn.security import DigestSha256Signer
+    return len(make_data([], MetaInfo(), None, signer=DigestSha256Signer()))
+
+
+def envelope(tok):
+    """The 6th field of a `recv` event -> (inside an LpPacket?, PIT token | None, CongestionMark | None).
+    None: the bare Interest; bytes: an LpPacket with that PIT token (b'' = an empty token);
+    ('lp', token | None, mark | None): an LpPacket with / without a PIT token and with / without a CongestionMark."""
+    if tok is None:
+        return False, None, None
+    if isinstance(tok, (bytes, bytearray)):
+        return True, bytes(tok), None
+    return True, (None if tok[1] is None else bytes(tok[1])), tok[2]
+
+
+def lp_overhead(tok):
+    """octets the LpPacket wrapper adds around a Data of >= 253 octets that echoes this PIT token"""
+    in_lp, t, _ = envelope(tok)
+    return 0 if t is None else 4 + 2 + len(t) + 4
+
+
+ENVELOPES = [None, b'', b'\x07', b'\xde\xad\xbe\xef', b'\xde\xad\xbe\xef\x00\x00\x00\x01', bytes(range(200, 232)),
+             ('lp', None, None), ('lp', None, 1), ('lp', b'\x01\x02\x03\x04', 1), ('lp', b'', 0xffff),
+             ('lp', bytes(range(32)), 3)]
+
 
 class Impl:
     def __init__(self, fe, loop):
@@ -244,11 +321,15 @@ class Impl:
             except Exception as e:   # noqa
                 return [0, err_code(e)]
             return [5, 1 if r is True else (0 if r is False else 9), self.take()]
-        if token is not None and self.fe == FE_V2:
+        in_lp, lp_token, mark = envelope(token)
+        if in_lp and self.fe == FE_V2:
             from ndn.encoding import ndnlp_v2 as ndnlp
             pkt = ndnlp.LpPacket()
             pkt.lp_packet = ndnlp.LpPacketValue()
-            pkt.lp_packet.pit_token = token
+            if lp_token is not None:
+                pkt.lp_packet.pit_token = lp_token
+            if mark is not None:
+                pkt.lp_packet.congestion_mark = mark
             pkt.lp_packet.fragment = wire
             wire = pkt.encode()
             wire = bytes(wire) if buf_kind == 0 else bytearray(wire)
@@ -455,7 +536,9 @@ def ns_sexp(arg):
 # ---- running one history --------------------------------------------------------------------------
 # harness-level events:
 #   ('att', name, hid, vid, raw, sig, repr_kind, via_route) ('det', name, repr_kind)
-#   ('recv', name, life, now, buf_kind, token) ('settle',) ('reply', i, now, running) ('clean',)
+#   ('recv', name, life, now, buf_kind, token) ('settle',) ('reply', i, now, running[, size]) ('clean',)
+#       token: the envelope the Interest arrives in (see `envelope`); size: the Data handed to reply() is
+#       data_of_size(size) instead of the small default one.  Neither is visible to the model / specification.
 #   ('down', how) / ('up',): the face goes down (0 the transport clears `running`, 1 face.shutdown(), 2 app.shutdown())
 #       and stays down until `up` (reconnected).  Not events of the model or the specification either: they fix
 #       the `up` argument of the reply events that follow (face_states); the 4th field of `reply` is a per-call
@@ -580,12 +663,16 @@ def run_history(ctx, fe, h, stratum, state, check_nodes=True):
             elif e[0] == 'reply':
                 loop._vt = e[2] / 1000.0
                 n0 = len(impl.face.sent)
-                o = impl.reply(e[1], e[3], data)
+                dt = data if len(e) < 5 or e[4] is None else data_of_size(e[4])
+                o = impl.reply(e[1], e[3], dt if (len(e) + e[1]) % 2 else bytearray(dt))
                 obs.append(o)
+                if len(e) >= 5 and e[4] is not None:
+                    ctx.stat('reply-data-octets:' + ('<=252' if e[4] <= 252 else '253..8700' if e[4] <= 8700 else
+                                                     '8701..8779' if e[4] < 8780 else '8780..8800'))
                 if o[0] == 4 and o[1] == 1:
-                    reply_bytes.append((e[1], impl.face.sent[n0]))
+                    reply_bytes.append((e[1], impl.face.sent[n0], dt))
                 elif o[0] == 4 and o[1] > 1:
-                    reply_bytes.append((e[1], None))
+                    reply_bytes.append((e[1], None, dt))
             elif e[0] == 'clean':
                 obs.append(impl.cleanup())
             elif e[0] == 'down':
@@ -689,17 +776,17 @@ def run_history(ctx, fe, h, stratum, state, check_nodes=True):
                 ctx.disagree('app.NDNApp:kwargs', 'keyword arguments passed to the handler', case, flags[c[0]], c[4])
                 break
     # -- v2: what reply() put on the face is the Data (bare, or in an LpPacket echoing the token) -------
-    for i, sent in reply_bytes:
+    for i, sent, dt in reply_bytes:
         tok = impl.calls[i][4]
         good = False
         if sent is not None:
             if tok is None:
-                good = sent == data
+                good = sent == dt
             else:
                 try:
                     from ndn.encoding import parse_lp_packet_v2
                     lp = parse_lp_packet_v2(sent, with_tl=True)
-                    good = bytes(lp.fragment) == data and bytes(lp.pit_token) == bytes(tok)
+                    good = bytes(lp.fragment) == dt and bytes(lp.pit_token) == bytes(tok)
                 except Exception:   # noqa
                     good = False
         if not good:
@@ -716,8 +803,8 @@ def run_history(ctx, fe, h, stratum, state, check_nodes=True):
                 s = s[:-1] + [[[c[0], [bytes(x) for x in c[1]], c[2]] for c in s[-1]]]
             if a != s:
                 if e[0] == 'reply':
-                    if a[0] == 7 and s[0] == 7 and a[1] != s[1]:
-                        cls = 'reply-sent-vs-deadline'
+                    if a[0] == 7 and s[0] == 7 and a[1] != s[1] and not (s[1] == 1 and a[2] == 1):
+                        cls = 'reply-sent-vs-deadline'      # went out after the deadline / withheld and said so
                     elif a[0] == 7 and s[0] == 7:
                         cls = 'reply-return-not-truthful'
                     else:
@@ -730,6 +817,11 @@ def run_history(ctx, fe, h, stratum, state, check_nodes=True):
                 if e[0] == 'reply':
                     note = (' [reply: (went out on the face, reported as sent); the face is '
                             + ('up' if ups[pos[j]] else 'DOWN') + ' at this reply]')
+                    if len(e) >= 5 and e[4] is not None:
+                        rcv = [x for x in full[:pos[j]] if x[0] == 'recv']
+                        note += (f' [the Data handed to reply() is {e[4]} octets; Interests arrived as '
+                                 f'{[x[5] for x in rcv][:8]} (None bare, bytes = LpPacket with that PIT token, '
+                                 f'(lp, token, CongestionMark))]')
                 ctx.violation(FE_NAME[fe], cls + (reuse if reused(j) else ''),
                               f'event {pos[j]} {e[0]}: specification demands {s}, implementation did {a}{note}',
                               {'fe': FE_NAME[fe], 'history': full[:pos[j] + 1]})
@@ -1269,6 +1361,8 @@ def gen_history(rng, fe, cs, wf=True):
                 nm = rand_name(rng, cs)
             life = rng.choice([None, 0, 1, 50, 100, 4000, 1 << 32])
             tok = rng.choice([None, None, b'', b'\x01\x02', b'\xde\xad\xbe\xef\x00\x00\x00\x01'])
+            if fe == FE_V2 and rng.random() < 0.3:
+                tok = rng.choice(ENVELOPES)
             h.append(('recv', nm, life, t, rng.randrange(2), tok))
             pend += 1
             deadlines.append(t + (4000 if life is None else life))
@@ -1283,7 +1377,10 @@ def gen_history(rng, fe, cs, wf=True):
                 now = max(t, d + rng.choice([-1, 0, 1, -50, 50]))
                 t = now
                 running = rng.random() < (0.85 if wf else 0.7)
-                h.append(('reply', i, now, running))
+                if fe == FE_V2 and rng.random() < 0.5:      # a Data of any legal size, mostly near a boundary
+                    h.append(('reply', i, now, running, rand_reply_size(rng)))
+                else:
+                    h.append(('reply', i, now, running))
         else:
             h.append(('clean',))
         if fe != FE_DISP and rng.random() < 0.07:   # the connection goes away / comes back
@@ -1295,6 +1392,79 @@ def gen_history(rng, fe, cs, wf=True):
             t += rng.choice([0, 1, 1, 10, 99, 100, 101, 3999, 4000, 4001])
     h.append(('settle',))
     return h
+
+
+def reply_sizes(thorough):
+    """Wire sizes of the Data handed to reply(): the smallest signed Data, around the one-octet / three-octet TLV length
+    switch of the Data itself (252, 253, 254, 257; no TLV is 255 or 256 octets long) and of the LpPacket around it
+    (Data of 230..251 octets), the middle of the range, and every size of the last 51 (thorough: 120) octets up to the
+    limit, where a wrapper of 8 + 2 + len(token) octets takes the packet on the face over 8800."""
+    lo = min_data_size()
+    mid = [lo, lo + 2, 100, 200] + list(range(228, 255)) + [257, 258, 259, 260, 300, 1000, 4000, 8000, 8500, 8700]
+    top = list(range(MAX_PKT - (119 if thorough else 50), MAX_PKT + 1))
+    return [n for n in mid + top if data_of_size(n) is not None]
+
+
+def rand_reply_size(rng):
+    k = rng.random()
+    if k < 0.5:
+        n = MAX_PKT - rng.randrange(60)
+    elif k < 0.75:
+        n = rng.randrange(225, 262)
+    else:
+        n = rng.randrange(min_data_size(), MAX_PKT + 1)
+    while data_of_size(n) is None:
+        n -= 1
+    return n
+
+
+def reply_size_family(ctx, state):
+    """Reply sizes over the whole legal range x the envelope the Interest arrived in x state of the face (appv2: the
+    only front-end whose handlers get a reply callback).  Every history: a handler at /a, Interests /a/b arriving in the
+    given envelopes, a loop turn, then replies with a Data of the given size.  Demanded by the specification machine
+    (the size of the Data and the envelope are not its business: any legal Data): goes out iff t <= deadline and the
+    face is up, reported True exactly then; by the byte check: what went out is that Data, bare (no PIT token came with
+    the Interest) or in an LpPacket echoing the token."""
+    rng = ctx.rng
+    a, b = comp('a'), comp('b')
+    t0 = 3_000_000
+    gi = 0
+    for size in reply_sizes(ctx.thorough):
+        for ei, env in enumerate(ENVELOPES):
+            gi += 1
+            life = (None, 0, 100, 4000)[gi % 4]
+            d = t0 + (4000 if life is None else life)
+            att = ('att', [a], 1, None, 0, 0, rng.randrange(N_KINDS), gi % 2)
+            rc = ('recv', [a, b], life, t0, gi % 2, env)
+            how = gi % 3
+            # the face stays up: inside the lifetime (twice: a handler may answer again), at the deadline, after it
+            h = [att, rc, ('settle',), ('reply', 0, t0, True, size), ('reply', 0, d, True, size),
+                 ('reply', 0, d + 1, True, size), ('settle',)]
+            run_history(ctx, FE_V2, h, 'reply-size-up', state)
+            # the face goes down and comes back; down for one call only
+            h = [att, rc, ('settle',), ('down', how), ('reply', 0, d, True, size), ('up',), ('reply', 0, d, True, size),
+                 ('reply', 0, d, False, size), ('reply', 0, d, True, size), ('reply', 0, d + 1, True, size), ('settle',)]
+            if ctx.thorough or gi % 3 == 0:        # quick: a third of the (size, envelope) pairs, rotating
+                run_history(ctx, FE_V2, h, 'reply-size-face', state)
+    # several Interests in different envelopes outstanding at once, answered in any order with Data of different sizes
+    sizes = reply_sizes(ctx.thorough)
+    for k in range(ctx.n(80, 3000)):
+        envs = [rng.choice(ENVELOPES) for _ in range(rng.randint(2, 6))]
+        lives = [rng.choice((None, 0, 1, 100, 4000)) for _ in envs]
+        h = [('att', [a], 1, None, 0, 0, rng.randrange(N_KINDS), 0), ('att', [a, b], 2, None, 0, 0, rng.randrange(N_KINDS), 1)]
+        h += [('recv', [a, b][:1 + i % 2] + [comp('c')], lives[i], t0 + i, rng.randrange(2), env) for i, env in enumerate(envs)]
+        h.append(('settle',))
+        ds = [t0 + i + (4000 if lf is None else lf) for i, lf in enumerate(lives)]
+        ts = sorted(max(t0 + len(envs), rng.choice(ds) + rng.choice((-1, 0, 0, 0, 1))) for _ in range(rng.randint(3, 9)))
+        down = False
+        for t in ts:
+            if rng.random() < 0.15:
+                h.append(('up',) if down else ('down', rng.randrange(3)))
+                down = not down
+            sz = rng.choice(sizes) if rng.random() < 0.5 else rand_reply_size(rng)
+            h.append(('reply', rng.randrange(len(envs)), t, rng.random() < 0.9, sz))
+        h.append(('settle',))
+        run_history(ctx, FE_V2, h, 'reply-size-mixed', state)
 
 
 TREE_COMPS = ['a', 'b', 'c', 'e', 'z']
@@ -1911,6 +2081,9 @@ def run(ctx):
                     ev2.insert(rng.randrange(i1 + 1, len(ev2) + 1), ('up',))
                 run_history(ctx, FE_V2, ev2 + [('settle',)], 'reply-two-face', state)
 
+        # ---- 1c. reply sizes over the legal range x envelope of the Interest x state of the face ----------
+        reply_size_family(ctx, state)
+
         # ---- 2. exhaustive block: subsets of a 9-node tree x all names of depth <= 4 ------------------
         nodes, names = tree_names()
         masks = list(range(512))
@@ -2065,6 +2238,8 @@ def replay(ctx, data):
         e = list(e)
         if e[0] in ('att', 'det', 'recv', 'route', 'reg', 'unreg'):
             e[1] = [bytes(c) for c in e[1]]
+        if e[0] == 'recv' and isinstance(e[5], list):
+            e[5] = tuple(e[5])
         if e[0] == 'fwd' and isinstance(e[1], list):
             e[1] = ('nack', tuple(e[1][1]) if isinstance(e[1][1], list) else e[1][1])
         h.append(tuple(e))
